@@ -41,9 +41,11 @@ vars == <<picked, tab>>
 
 ----------------------------------------------------------------------------
 (* generic helpers *)
-RECURSIVE ConcatFrom(_, _)
-ConcatFrom(ss, k) == IF k > Len(ss) THEN <<>> ELSE ss[k] \o ConcatFrom(ss, k + 1)
-Flat(ss) == ConcatFrom(ss \o <<>>, 1)
+\* concatenation of a sequence of sequences (by halves: recursion depth log n)
+RECURSIVE ConcatRange(_, _, _)
+ConcatRange(ss, lo, hi) == IF lo > hi THEN <<>> ELSE IF lo = hi THEN ss[lo]
+                           ELSE LET mid == (lo + hi) \div 2 IN ConcatRange(ss, lo, mid) \o ConcatRange(ss, mid + 1, hi)
+Flat(ss) == LET t == ss \o <<>> IN ConcatRange(t, 1, Len(t))
 MapL(seq, F(_)) == [i \in 1 .. Len(seq) |-> F(seq[i])]
 MapIdx(seq, F(_, _)) == [i \in 1 .. Len(seq) |-> F(i, seq[i])]
 Opt(c, seq) == IF c THEN seq ELSE <<>>
@@ -456,9 +458,8 @@ InsLex == << <<"stray-lt", "<">>, <<"bad-entity", "&foo;">>, <<"nul-byte", "\\x0
              <<"open-comment", "<!--">>, <<"open-cdata", "<![CDATA[">>, <<"surrogate-char-ref", "&#xD800;">>, <<"nul-char-ref", "&#0;">>,
              <<"cdata-end", "]]>">>, <<"invalid-utf8", "\\xc3\\x28">>, <<"pi-include", "<?include href='x'?>">>, <<"lone-ampersand", "&">> >>
 InsPoints == {k \in 1 .. NTok - 1 : (k + Seed) % (TruncStep * 4) = 1}
-SeqOfSet(S) == LET RECURSIVE go(_)
-                   go(T) == IF T = {} THEN <<>> ELSE LET x == CHOOSE y \in T : \A z \in T : y <= z IN <<x>> \o go(T \ {x})
-               IN go(S)
+\* a set of token positions as an ascending sequence
+SeqOfSet(S) == SelectSeq([k \in 1 .. NTok |-> k], LAMBDA k : k \in S)
 DocMuts ==
   MapL(SeqOfSet(CutPoints), LAMBDA k : DocAct("truncate", "at-token", <<TextOp("truncate", k, "")>>)) \o
   MapL(SeqOfSet({k \in CutPoints : k % 3 = 0}), LAMBDA k : DocAct("truncate", "inside-token", <<TextOp("truncmid", k, "")>>)) \o
